@@ -23,7 +23,9 @@ import (
 	"encoding/json"
 	"fmt"
 	"os"
+	"runtime"
 	"sort"
+	"strings"
 	"sync"
 	"testing"
 	"time"
@@ -75,7 +77,7 @@ func c26Members(b GroupBalancer, c *balenum.Case) ([]kmsg.JoinGroupResponseMembe
 func c26Plan(coop bool, c *balenum.Case) (plan balenum.Plan, err error) {
 	defer func() {
 		if r := recover(); r != nil {
-			plan, err = nil, fmt.Errorf("panic: %v", r)
+			plan, err = nil, fmt.Errorf("panic: %v at %s", r, c26PanicSite())
 		}
 	}()
 	s := &stickyBalancer{cooperative: coop}
@@ -116,10 +118,29 @@ func c26Plan(coop bool, c *balenum.Case) (plan balenum.Plan, err error) {
 	return sticky.BalanceWithRacks(stickyMembers, counts, cb.partitionRacks), nil
 }
 
+// c26PanicSite names the first franz-go frame of the panicking stack.
+func c26PanicSite() string {
+	pcs := make([]uintptr, 32)
+	n := runtime.Callers(3, pcs)
+	frames := runtime.CallersFrames(pcs[:n])
+	for {
+		f, more := frames.Next()
+		if strings.Contains(f.Function, "franz-go/pkg/kgo") && !strings.Contains(f.Function, "c26") {
+			return fmt.Sprintf("%s:%d", f.Function[strings.LastIndex(f.Function, "/")+1:], f.Line)
+		}
+		if !more {
+			return "?"
+		}
+	}
+}
+
 func c26Check(coop bool, c *balenum.Case) (plan balenum.Plan, v *balenum.Verdict, staysApplicable bool) {
 	plan, err := c26Plan(coop, c)
 	if err != nil {
-		return nil, &balenum.Verdict{Key: "panic-or-error", What: err.Error()}, false
+		if strings.HasPrefix(err.Error(), "panic: ") {
+			return nil, &balenum.Verdict{Key: "panic", What: "the balancer panicked (recovered per case): " + err.Error()}, false
+		}
+		return nil, &balenum.Verdict{Key: "error", What: err.Error()}, false
 	}
 	if iv := balenum.CheckValid(c, plan, false); iv != nil {
 		return plan, &balenum.Verdict{Key: "invalid-plan-" + iv.Key, What: "the plan before the cooperative adjustment is not a valid complete assignment: " + iv.What}, false
@@ -178,6 +199,20 @@ func TestVerifC26(t *testing.T) {
 	thorough := os.Getenv("VERIF_TIER") == "thorough"
 	st := balenum.StickyTier(thorough)
 	blocks := balenum.StickyBlocks(st)
+	cx := balenum.ComplexTier(thorough)
+	blocks = append(blocks, balenum.ComplexBlocks(cx)...)
+	// time slice: stop handing out blocks after this long and say so
+	slice := 8 * time.Minute
+	if thorough {
+		slice = 75 * time.Minute
+	}
+	if v := os.Getenv("C26_SLICE_S"); v != "" {
+		var sec int
+		fmt.Sscan(v, &sec)
+		slice = time.Duration(sec) * time.Second
+	}
+	deadline := t0.Add(slice)
+	var cutBlocks int
 	balenum.TuneGC(256 << 20)
 	workers := 16
 	fmt.Sscan(os.Getenv("VERIF_WORKERS"), &workers)
@@ -260,9 +295,13 @@ func TestVerifC26(t *testing.T) {
 	seen := map[string]bool{}
 	for i := range blocks {
 		b := &blocks[i]
+		if time.Now().After(deadline) {
+			cutBlocks = len(blocks) - i
+			break
+		}
 		for _, coop := range []bool{false, true} {
 			key := c26Name(coop) + "/" + b.Sweep
-			if !seen[key] && b.N == 3 && len(b.Parts) == 2 && b.Subs[0] != b.Subs[1] && b.Sweep != "special" {
+			if !seen[key] && (b.N == 3 && len(b.Parts) == 2 || b.N == 4 && len(b.Parts) == 3 && b.Parts[2] == 4 && b.Subs[0] == 1 && b.Subs[1] == 3 && b.Subs[2] == 6 && b.Subs[3] == 4) && b.Subs[0] != b.Subs[1] && b.Sweep != "special" && len(samples) < 8 {
 				seen[key] = true
 				cnt := 0
 				b.Each(func(c *balenum.Case) {
@@ -294,10 +333,12 @@ func TestVerifC26(t *testing.T) {
 		"distinct":     dl,
 		"per_balancer": per,
 		"per_sweep":    perSweep,
-		"bound":        fmt.Sprintf("members<=%d; full prior sweep: total partitions<=%d (<=%d at %d members); special-member sweep: <=%d; rack sweep (2 racks, all placements): <=%d; topics<=2 with 1..3 partitions; count-map insertion orders: %s", st.MaxMembers, st.FullTotal, st.FullTotalAtMax, st.MaxMembers, st.SpecialTotal, st.RacksTotal, map[int]string{0: "one per input, alternating", 1: "one", 2: "both for every input (alternating at 6 partitions)"}[st.Orders]),
+		"bound":        fmt.Sprintf("members<=%d; full prior sweep: total partitions<=%d (<=%d at %d members); special-member sweep: <=%d; rack sweep (2 racks, all placements): <=%d; topics<=2 with 1..3 partitions; count-map insertion orders: %s. Complex-path sweep: %s", st.MaxMembers, st.FullTotal, st.FullTotalAtMax, st.MaxMembers, st.SpecialTotal, st.RacksTotal, map[int]string{0: "one per input, alternating", 1: "one", 2: "both for every input (alternating at 6 partitions)"}[st.Orders], cx.String()),
 		"samples":      samples,
 		"findings":     findings,
 		"wall_s":       time.Since(t0).Seconds(),
+		"blocks":       len(blocks),
+		"blocks_cut":   cutBlocks,
 		"extra": map[string]int64{
 			"cases_where_stays_put_oracle_applied":  stays,
 			"cases_with_uneven_subscriptions":       uneven,
